@@ -28,6 +28,19 @@ enum FrameUT {
     CloseCapsule,
     /// unknown capsule (own DATA frame) followed by the close capsule
     UnknownCapsuleThenClose,
+    /// a GREASE frame (skipped by the reader) followed by the close capsule
+    GreaseThenClose,
+    /// a HEADERS frame (trailers; skipped by the reader) followed by the close capsule
+    HeadersThenClose,
+}
+
+fn close_prefix(frame: FrameUT) -> Vec<u8> {
+    match frame {
+        FrameUT::UnknownCapsuleThenClose => h3::frame(h3::FRAME_DATA, &capsule::encode(0x1f * 5 + 0x17, b"unknown capsule body")),
+        FrameUT::GreaseThenClose => h3::frame(h3::grease(21), b"skipped"),
+        FrameUT::HeadersThenClose => crate::raw::headers_frame(&[(b"x-trailer", b"1")]),
+        _ => vec![],
+    }
 }
 
 #[derive(Clone, Debug, PartialEq, Eq)]
@@ -120,14 +133,11 @@ async fn run_case(role: Role, frame: FrameUT, cuts: &[usize], ev: Event, pause: 
                 Err(e) => Outcome::NotEstablished(format!("probe after GREASE frame: {e}")),
             }
         }
-        FrameUT::CloseCapsule | FrameUT::UnknownCapsuleThenClose => {
+        FrameUT::CloseCapsule | FrameUT::UnknownCapsuleThenClose | FrameUT::GreaseThenClose | FrameUT::HeadersThenClose => {
             let mut live = live;
-            let mut bytes = vec![];
-            let mut base = 0;
-            if frame == FrameUT::UnknownCapsuleThenClose {
-                bytes.extend(h3::frame(h3::FRAME_DATA, &capsule::encode(0x1f * 5 + 0x17, b"unknown capsule body")));
-                base = 0; // cuts range over the whole byte string (both frames)
-            }
+            // cuts range over the whole byte string (both frames)
+            let mut bytes = close_prefix(frame);
+            let base = 0;
             bytes.extend(h3::frame(h3::FRAME_DATA, &capsule::close(CLOSE_CODE, CLOSE_REASON)));
             let cuts: Vec<usize> = cuts.iter().map(|c| base + c).collect();
             let mut s = live.sess_send.take().ok_or("session stream already taken")?;
@@ -153,7 +163,7 @@ fn frame_len(role: Role, frame: FrameUT) -> usize {
         FrameUT::GreaseAfterSettings => h3::frame(h3::grease(11), b"grease payload").len(),
         FrameUT::Headers => s.headers.len(),
         FrameUT::CloseCapsule => h3::frame(h3::FRAME_DATA, &capsule::close(CLOSE_CODE, CLOSE_REASON)).len(),
-        FrameUT::UnknownCapsuleThenClose => h3::frame(h3::FRAME_DATA, &capsule::encode(0x1f * 5 + 0x17, b"unknown capsule body")).len() + h3::frame(h3::FRAME_DATA, &capsule::close(CLOSE_CODE, CLOSE_REASON)).len(),
+        FrameUT::UnknownCapsuleThenClose | FrameUT::GreaseThenClose | FrameUT::HeadersThenClose => close_prefix(frame).len() + h3::frame(h3::FRAME_DATA, &capsule::close(CLOSE_CODE, CLOSE_REASON)).len(),
     }
 }
 
@@ -171,9 +181,9 @@ pub fn run(args: &Args) -> Report {
     let _ = rv::MAX;
     let roles = [Role::Server, Role::Client];
     let frames: Vec<FrameUT> = if args.thorough {
-        vec![FrameUT::Settings, FrameUT::GreaseAfterSettings, FrameUT::Headers, FrameUT::CloseCapsule, FrameUT::UnknownCapsuleThenClose]
+        vec![FrameUT::Settings, FrameUT::GreaseAfterSettings, FrameUT::Headers, FrameUT::CloseCapsule, FrameUT::UnknownCapsuleThenClose, FrameUT::GreaseThenClose, FrameUT::HeadersThenClose]
     } else {
-        vec![FrameUT::Settings, FrameUT::CloseCapsule, FrameUT::GreaseAfterSettings, FrameUT::Headers]
+        vec![FrameUT::Settings, FrameUT::CloseCapsule, FrameUT::GreaseAfterSettings, FrameUT::Headers, FrameUT::GreaseThenClose, FrameUT::HeadersThenClose]
     };
     let events: Vec<Event> = if args.thorough { EVENTS.to_vec() } else { vec![Event::None, Event::DatagramSession, Event::UniWt, Event::BiWt, Event::QpackEncoderBytes] };
     let mut cases: Vec<Case> = vec![];
@@ -193,6 +203,10 @@ pub fn run(args: &Args) -> Report {
                 v.sort_unstable();
                 v.dedup();
                 v
+            } else if matches!(frame, FrameUT::GreaseThenClose | FrameUT::HeadersThenClose) {
+                // quick: the cut falls inside the frame that follows the skipped one
+                let pl = close_prefix(frame).len();
+                vec![1, pl, pl + 1, pl + 2, pl + 3, pl + 7, len - 1]
             } else {
                 let mut v = vec![1, 2, 3, len / 2, len - 1];
                 v.sort_unstable();
@@ -216,7 +230,7 @@ pub fn run(args: &Args) -> Report {
                 cut_sets.push(vec![2, len - 1]);
             }
             for cs in cut_sets {
-                let evs: Vec<Event> = if args.thorough || matches!(frame, FrameUT::Settings | FrameUT::CloseCapsule) { events.clone() } else { vec![Event::None, Event::UniWt] };
+                let evs: Vec<Event> = if args.thorough || matches!(frame, FrameUT::Settings | FrameUT::CloseCapsule | FrameUT::GreaseThenClose) { events.clone() } else { vec![Event::None, Event::UniWt] };
                 for &ev in &evs {
                     cases.push(Case { role, frame, cuts: cs.clone(), ev, multi: rng.chance(2, 3) });
                 }
